@@ -22,10 +22,10 @@ def run(ctx):
         open(cases, "w").write(ctx.replay["case_record"]["line"] + "\n")
     else:
         cfg = "Compr_quick.cfg" if ctx.tier == "quick" else "Compr_thorough.cfg"
-        ctx.tlc("sem", "Compr", cfg, cases_path=cases, timeout_s=900,
+        ctx.tlc("sem", "Compr", cfg, cases_path=cases, timeout_s=1800,
                 workers=min(8, int(os.environ.get("VERIF_TLC_WORKERS") or 8)))
     h = ctx.build_harness("semh")
-    res = ctx.run_harness(h, ["compr"], cases, timeout_s=2400)
+    res = ctx.run_harness(h, ["compr"], cases, timeout_s=7000)
     ctx.tally(res, cases_path=cases)
     ctx.programs = int(ctx.extra.get("programs", 0)) + int(ctx.extra.get("go_expansion_programs", 0))
     ctx.disagreements_checked = int(ctx.extra.get("compared_with_model", 0))
